@@ -445,6 +445,28 @@ class Flattener(object):
         """-> list of statements replacing `stmt`"""
         # 1. expression-level helpers anywhere in the statement's own expressions
         stmt = self.rewrite_own_exprs(stmt, cls, stack)
+        # 1b. a statement helper called from a later operand of a short-circuit test: split the test (exact)
+        #       if A and B: X else: Y   ==>   if A: (if B: X else: Y) else: Y
+        #       if A or B:  X else: Y   ==>   if A: X else: (if B: X else: Y)
+        if isinstance(stmt, ast.If):
+            t = stmt.test
+            neg = False
+            if isinstance(t, ast.UnaryOp) and isinstance(t.op, ast.Not) and isinstance(t.operand, ast.BoolOp):
+                # not (A and B) == (not A) or (not B);  not (A or B) == (not A) and (not B)
+                inner = t.operand
+                flipped = ast.Or() if isinstance(inner.op, ast.And) else ast.And()
+                t = ast.copy_location(ast.BoolOp(op=flipped, values=[
+                    ast.copy_location(ast.UnaryOp(op=ast.Not(), operand=v), v) for v in inner.values]), t)
+            if isinstance(t, ast.BoolOp) and len(t.values) >= 2 and any(
+                    self.statement_helper_in(v, cls, stack) for v in t.values[1:]):
+                first = t.values[0]
+                rest = t.values[1] if len(t.values) == 2 else ast.copy_location(ast.BoolOp(op=t.op, values=t.values[1:]), t)
+                if isinstance(t.op, ast.And):
+                    inner_if = ast.copy_location(ast.If(test=rest, body=stmt.body, orelse=copy.deepcopy(stmt.orelse)), stmt)
+                    stmt = ast.copy_location(ast.If(test=first, body=[inner_if], orelse=stmt.orelse), stmt)
+                else:
+                    inner_if = ast.copy_location(ast.If(test=rest, body=copy.deepcopy(stmt.body), orelse=stmt.orelse), stmt)
+                    stmt = ast.copy_location(ast.If(test=first, body=stmt.body, orelse=[inner_if]), stmt)
         # 2. statement-level helpers in hoistable positions
         for call in self.hoistable_calls(stmt):
             r = self.resolve(call, cls)
@@ -498,6 +520,20 @@ class Flattener(object):
             for h in stmt.handlers:
                 h.body = self.rewrite_block(h.body, cls, stack)
         return [stmt]
+
+    def statement_helper_in(self, expr, cls, stack):
+        """the expression contains a call to an inlinable helper that is not a single-return expression helper"""
+        for c in ast.walk(expr):
+            if isinstance(c, ast.Call):
+                r = self.resolve(c, cls)
+                if r is None:
+                    continue
+                callee, _ = r
+                if callee.key in stack or len(stack) >= MAX_DEPTH or not self.eligible(callee, c):
+                    continue
+                if self.expression_helper(callee) is None:
+                    return True
+        return False
 
     @staticmethod
     def always_returns(stmts):
